@@ -135,7 +135,7 @@ Definition agree_reject_in (files : list (string * string)) (loads : list (strin
     (eps aeps deps tin : Qc) (i : die_input) (fx : list Rect) (cls : option reason) : bool :=
   match die_in_cells (files_of files) (loader_of loads) eps aeps deps tin i fx with
   | IRes (Reject why) => match cls with None => true | Some c => reason_eqb why c end
-  | INonFinite => true
+  | INonFinite | IRaise => true     (* refused either way: the property does not say how *)
   | _ => false
   end.
 
@@ -143,7 +143,7 @@ Definition agree_reject_in (files : list (string * string)) (loads : list (strin
 Definition agree_raise_in (files : list (string * string)) (loads : list (string * yload))
     (eps aeps deps tin : Qc) (i : die_input) (fx : list Rect) : bool :=
   match die_in_cells (files_of files) (loader_of loads) eps aeps deps tin i fx with
-  | IRaise | INonFinite => true
+  | IRaise | INonFinite | IRes (Reject _) => true     (* refused either way *)
   | _ => false
   end.
 
